@@ -35,9 +35,9 @@ type vfHQuery struct {
 	// "kind" = WithFusionKind(kind), i.e. the library's default configuration (weights 1 / 1, K 60);
 	// "none" = nothing is set (only with Fusion == ""): the search's own default fusion
 	FusionVia string `json:"fusion_via,omitempty"`
-	Agg     string        `json:"agg,omitempty"`
-	NP      int           `json:"nprobes,omitempty"`
-	Ef      int           `json:"ef,omitempty"`
+	Agg       string `json:"agg,omitempty"`
+	NP        int    `json:"nprobes,omitempty"`
+	Ef        int    `json:"ef,omitempty"`
 }
 
 type vfYOp struct {
